@@ -13,7 +13,8 @@
 //!   ty   0 u8, 1 u64, 2 [u8; 3], 3 GenericArray<u8, U3>, 4 Fd, 5 Keep, 6 W, 7 GenericArray<W, U3>,
 //!        8 KeepBig (Keep plus 20 bytes of key material: wider than a machine word, no drop glue),
 //!        9 Inv (one byte whose zeroized value is 0xFF, not the all-zero byte pattern),
-//!        10 Page (a 5000-byte element: larger than a memory page)
+//!        10 Page (a 5000-byte element: larger than a memory page),
+//!        11 Cnt (one byte that counts its wipes: zeroize is x -> x + 1, so reaching an element twice shows)
 //! Observables: [N, element codes...] (N = Unsigned::USIZE of the type).
 //! Direct oracles: every element after zeroize() equals the zeroized clone of the
 //! element before; const default == T::DEFAULT == Default::default() element-wise.
@@ -165,6 +166,24 @@ impl Default for Inv {
     }
 }
 
+/// one byte that COUNTS its wipes: zeroize is not idempotent here (x -> x + 1), so an element that is
+/// reached twice differs from one that is reached once
+#[derive(Clone, PartialEq, Debug)]
+struct Cnt(u8);
+impl Zeroize for Cnt {
+    fn zeroize(&mut self) {
+        self.0 = self.0.wrapping_add(1);
+    }
+}
+impl ConstDefault for Cnt {
+    const DEFAULT: Self = Cnt(0);
+}
+impl Default for Cnt {
+    fn default() -> Self {
+        Cnt(0)
+    }
+}
+
 /// an element larger than a memory page (5000 bytes): zeroize wipes all of it
 #[derive(Clone, PartialEq, Debug)]
 struct Page {
@@ -293,6 +312,15 @@ impl Elem for Inv {
         self.0 as i128
     }
 }
+impl Elem for Cnt {
+    const BITS: u32 = 8;
+    fn dec(c: i128) -> Self {
+        Cnt(c as u8)
+    }
+    fn enc(&self) -> i128 {
+        self.0 as i128
+    }
+}
 impl Elem for Page {
     const BITS: u32 = 8;
     fn dec(c: i128) -> Self {
@@ -325,7 +353,7 @@ impl Elem for GenericArray<W, U3> {
     }
 }
 
-const NTY: i128 = 11;
+const NTY: i128 = 12;
 fn bits_of(ty: i128) -> u32 {
     match ty {
         0 => <u8 as Elem>::BITS,
@@ -338,6 +366,7 @@ fn bits_of(ty: i128) -> u32 {
         7 => <GenericArray<W, U3> as Elem>::BITS,
         8 => <KeepBig as Elem>::BITS,
         9 => <Inv as Elem>::BITS,
+        11 => <Cnt as Elem>::BITS,
         _ => <Page as Elem>::BITS,
     }
 }
@@ -550,6 +579,7 @@ fn run_case(case: &[i128]) -> Vec<i128> {
         8 => run_ty::<KeepBig>(digits, op, prior),
         9 => run_ty::<Inv>(digits, op, prior),
         10 => run_ty_short::<Page>(digits, op, prior),
+        11 => run_ty::<Cnt>(digits, op, prior),
         _ => panic!("bad element type {}", ty),
     };
     r.expect("length type not monomorphised")
